@@ -12,7 +12,7 @@ theorem win_exec (hS : Struct reg s) (hc : cfg.copyNeverClears = true) (hW : Win
   winsClr := winsClr_exec hS hc hW
 
 theorem win_begin (hS : Struct reg s) (hc : cfg.copyNeverClears = true) (hW : Win s) (hi : s.pc t = .idle) :
-    Win (begin reg s t) where
+    Win (begin cfg reg s t) where
   copyT := copyT_begin hS hc hW hi
   winsLe := winsLe_begin hS hc hW hi
   winsClr := winsClr_begin hS hc hW hi
@@ -23,12 +23,12 @@ theorem sw_step (hc : cfg.copyNeverClears = true) (h : Struct reg s ∧ Win s) :
     (fun _ _ hi h => ⟨struct_begin h.1 hi, win_begin h.1 hc h.2 hi⟩)
     (fun _ _ h => ⟨struct_exec h.1, win_exec h.1 hc h.2⟩) s t h
 
-theorem win_init (prog : Nat → List Op) : Win (init prog) := by
+theorem win_init (reg : List Nat) (prog : Nat → List Op) : Win (init reg prog) := by
   constructor <;> simp [init, Pc.copyVal]
 
 theorem sw_run (cfg : Cfg) (hc : cfg.copyNeverClears = true) (reg : List Nat) (prog : Nat → List Op) (sched : List Nat) :
     Struct reg ((CtxTree cfg reg prog).run sched) ∧ Win ((CtxTree cfg reg prog).run sched) :=
-  Sys.inv_run (CtxTree cfg reg prog) (fun s => Struct reg s ∧ Win s) ⟨struct_init prog, win_init prog⟩
+  Sys.inv_run (CtxTree cfg reg prog) (fun s => Struct reg s ∧ Win s) ⟨struct_init reg prog, win_init reg prog⟩
     (fun _ _ h => sw_step hc h) sched
 
 /-- one access: a set flag stays set unless this access is a reset of that context; reset counts never decrease -/
@@ -42,7 +42,7 @@ theorem sticky_exec (hc : cfg.copyNeverClears = true) (hW : Win s) {x : Nat} :
   all_goals (try simp [upd_apply])
   all_goals grind
 
-theorem sticky_begin {x : Nat} : (begin reg s t).resets x = s.resets x ∧ (begin reg s t).can x = s.can x := by
+theorem sticky_begin (cfg : Cfg) {x : Nat} : (begin cfg reg s t).resets x = s.resets x ∧ (begin cfg reg s t).can x = s.can x := by
   begin_cases
   all_goals simp
 
@@ -52,7 +52,7 @@ theorem sticky_step (hS : Struct reg s) (hc : cfg.copyNeverClears = true) (hW : 
   rw [step_eq]
   split
   · rename_i hi
-    have hb := sticky_begin (reg := reg) (s := s) (t := t) (x := x)
+    have hb := sticky_begin cfg (reg := reg) (s := s) (t := t) (x := x)
     have he := sticky_exec (cfg := cfg) (reg := reg) (t := t) hc (win_begin hS hc hW hi) (x := x)
     rw [hb.1, hb.2] at he
     exact he
